@@ -23,8 +23,9 @@ def plain_name(bs):
     return bs.decode("ascii")
 
 
-def ikeys(item, depth=0, out=None):
-    """Pre-order [depth, name] of the text-string keys of maps (tag content is not descended into)."""
+def ikeys(item, depth=0, out=None, opaque=()):
+    """Pre-order [depth, name] of the text-string keys of maps (tag content is not descended into; nor is the value
+    of a top-level member listed in `opaque`: it is one value to the builder discipline, as in the JSON projection)."""
     if out is None:
         out = []
     if item is None:
@@ -36,10 +37,11 @@ def ikeys(item, depth=0, out=None):
             k, v = kids[i], kids[i + 1]
             name = plain_name(bytes.fromhex(k.get("hex", ""))) if k["m"] == 3 else "?"
             out.append([depth, name])
-            ikeys(v, depth + 1, out)
+            if name not in opaque:
+                ikeys(v, depth + 1, out, opaque)
     elif m == 4:
         for k in kids:
-            ikeys(k, depth + 1, out)
+            ikeys(k, depth + 1, out, opaque)
     return out
 
 
